@@ -17,7 +17,7 @@ func initProps() {
 		race:        true,
 		level:       "exploration",
 		quickRuns:   48000,
-		thorRuns:    4000000,
+		thorRuns:    10000000,
 		quickBudget: 120,
 		thorBudget:  1500,
 		components:  withExtra(commonComponents, "clients, clock, sweeper", "harness tasks calling the real NetBIOSNameServer API"),
@@ -46,7 +46,7 @@ func initC11() {
 		race:        false,
 		level:       "fault_enumeration",
 		quickRuns:   24000,
-		thorRuns:    1500000,
+		thorRuns:    3000000,
 		quickBudget: 150,
 		thorBudget:  1500,
 		components:  withExtra(commonComponents, "scripted NBT peer", "harness code with an independent RFC 1002 section 4.3.1 framer/deframer (never the library's own)"),
@@ -70,7 +70,7 @@ func initC18() {
 		race:        true,
 		level:       "exploration",
 		quickRuns:   40000,
-		thorRuns:    3000000,
+		thorRuns:    5000000,
 		quickBudget: 150,
 		thorBudget:  1500,
 		components: withExtra(withExtra(commonComponents, "NBNS / LLMNR raw clients, LLMNR responders, NBNS challenged node", "harness tasks on simulated hosts (LLMNR: independent minimal RFC 1035 codec; NBNS requests built with the library's own Marshal, responses read by an independent tolerant reader)"),
